@@ -14,7 +14,9 @@
 (* Implementation-shaped: stringdecl keeps a dictionary keyed by a byte string     *)
 (* and creates an object from the first literal that produces a key; later         *)
 (* literals with an equal key get that object.  A correct key is (element width,   *)
-(* whole image).  NAMED DEVIATIONS of the shipped code:                            *)
+(* whole image).  NAMED DEVIATIONS (CONSTANTS; both were TRUE for the code as      *)
+(* shipped and are FALSE since `fix:` commit 7b5722a in /repo, so the check now    *)
+(* demands the repaired behaviour and a regression is a VIOLATION):                *)
 (*  Dev_PoolKeyInElements   expr->u.string.size — the number of ELEMENTS — is      *)
 (*      passed as the key length in bytes, so for w > 1 only the first Len(els)+1  *)
 (*      bytes take part: L"ab" and L"ac" share one object, u"a" and "a" share.     *)
@@ -27,7 +29,9 @@ EXTENDS Naturals, Integers, Sequences, FiniteSets, TLC, Json, SequencesExt
 CONSTANTS Widths,      \* subset of {1,2,4}
           Elems,       \* element values used (values > 255 only for w > 1)
           MaxEls,      \* literals have 0..MaxEls elements before the terminator
-          MaxUses      \* literals per translation unit
+          MaxUses,     \* literals per translation unit
+          Dev_PoolKeyInElements,    \* named deviation: key length in elements (shipped before /repo 7b5722a); FALSE since the fix
+          Dev_PoolKeyIgnoresWidth   \* named deviation: element width not part of the key; FALSE since the fix
 
 VARIABLES uses     \* the literals of the unit, in order
 
@@ -46,6 +50,7 @@ Take(s, n) == SubSeq(s, 1, IF n < Len(s) THEN n ELSE Len(s))
 Shipped == [elems |-> TRUE,  width |-> TRUE]     \* the code as shipped
 Naive   == [elems |-> FALSE, width |-> TRUE]     \* after the obvious repair `size * elementsize` only
 Fixed   == [elems |-> FALSE, width |-> FALSE]    \* key = (element width, whole image)
+Model   == [elems |-> Dev_PoolKeyInElements, width |-> Dev_PoolKeyIgnoresWidth]   \* what the real code is expected to do now
 KeyOf(l, dev) ==                                                                \* mapkey(&key, data, size)
   <<IF dev.width THEN 0 ELSE l.w,                                               \* Dev_PoolKeyIgnoresWidth
     Take(Bytes(l), IF dev.elems THEN NElems(l) ELSE NElems(l) * l.w)>>          \* Dev_PoolKeyInElements
@@ -80,11 +85,13 @@ Inv_NaiveServes == AllServed(uses, Naive)
 (* under the shipped key every failure is a content failure (so fixing the key length alone is what unmasks alignment) *)
 Inv_ShippedFailuresAreContent == LET o == Objects(uses, Shipped) IN
   \A i \in 1..Len(uses) : ServesContent(uses[o[i]], uses[i]) => ServesAlign(uses[o[i]], uses[i])
+(* the model of the current code (deviations as configured) satisfies the requirement *)
+Inv_ModelServes == AllServed(uses, Model)
 (* with the full key, sharing happens exactly for equal width and image *)
 Inv_FixedSharesEqualOnly == LET o == Objects(uses, Fixed) IN
   \A i, j \in 1..Len(uses) : (o[i] = o[j]) <=> (Bytes(uses[i]) = Bytes(uses[j]) /\ uses[i].w = uses[j].w)
 
 Emit == PrintT("VCASE " \o ToJson([uses |-> [i \in 1..Len(uses) |-> [w |-> uses[i].w, els |-> uses[i].els, bytes |-> Bytes(uses[i])]],
-                                   objShipped |-> Objects(uses, Shipped), objNaive |-> Objects(uses, Naive), objFixed |-> Objects(uses, Fixed)]))
+                                   objModel |-> Objects(uses, Model), objShipped |-> Objects(uses, Shipped), objNaive |-> Objects(uses, Naive), objFixed |-> Objects(uses, Fixed)]))
 Inv_Emit == Len(uses) = MaxUses => Emit
 =============================================================================
